@@ -5,15 +5,14 @@ VERIF = os.path.dirname(os.path.dirname(os.path.abspath(__file__)))
 LEVEL_NOTE = ("Trusted: Lean 4.33 kernel (axioms propext, Classical.choice, Quot.sound only; audited by #print axioms each run); "
               "the Go fact extractor (go/extract) and the differential harness + Lean driver that tie the hand-written model to /repo's working tree; "
               "Go's sync/atomic/channels/timers and context are modelled with textbook semantics.")
-CLAIMED = {
- 'C01': dict(text="Proved in Lean for every raw producer script (legal or not): the subscriber/observer gate delivers a Grammar-conforming prefix and delivered++dropped = raw "
-                  "(kernel_grammar, kernel_partition); for every operator machine and chain, both source modes, the final trace obeys the grammar (operator_grammar, chain_grammar). "
-                  "Tie: every catalogue operator's machine is run against the real operator on exhaustive/seeded raw scripts incl. illegal suffixes (kinds + drops compared), plus a direct Grammar oracle on the implementation trace.",
-             technique="Lean 4 proof (induction over raw scripts, gate lemmas) + differential correspondence of the executable model against the implementation", ref='5/C01'),
- 'C04': dict(text="One Lean theorem per operator machine: for all parameters, raw scripts and source modes, delivered trace = the documented list function (Spec.*) of the source's values and ending; "
-                  "chains = composition (Machine.seq). Tie: exhaustive small-scope + seeded differential runs of every machine against the real operator (values, kinds, order).",
-             technique="Lean 4 proof (machine = list-function specification, induction on the value list) + differential correspondence", ref='5/C04'),
-}
+import sys, importlib
+sys.path.insert(0, os.path.join(VERIF, 'tools'))
+sys.path.insert(0, os.path.join(VERIF, 'tools', 'checks'))
+CLAIMED = {}
+for fn in sorted(os.listdir(os.path.join(VERIF, 'tools', 'checks'))):
+    if fn.startswith('C') and fn.endswith('.py'):
+        mod = importlib.import_module(fn[:-3])
+        CLAIMED[fn[:-3]] = mod.MANIFEST
 NOT_YET = {}
 props = [json.loads(l) for l in open(os.path.join(VERIF, 'properties.jsonl'))]
 checks, na = [], []
